@@ -58,4 +58,54 @@ theorem T13_sphere_locus (c0 c1 c2 r x y z : F) :
   · ring
 
 end
+
+/-! ## the matrices that `Ellipse.__init__` and `Sphere.__init__` assemble (regenerated from geometer/curve.py by symbolic
+    execution of the assembly code) are the matrices of the Cartesian loci -/
+section
+variable {F : Type} [Field F]
+
+/-- quadratic form of the regenerated ellipse matrix at the finite point (x, y, 1) -/
+def ellipseGenForm (cx cy hr vr x y : F) : F :=
+  let p : Nat → F := fun k => match k with | 0 => x | 1 => y | _ => 1
+  sumRange 3 fun i => sumRange 3 fun j => p i * Gen.ellipse_m cx cy hr vr i j * p j
+
+theorem T13_ellipse_code_form (cx cy hr vr x y : F) :
+    ellipseGenForm cx cy hr vr x y = ellipseForm cx cy hr vr x y ∧
+    (∀ i j, i < 3 → j < 3 → Gen.ellipse_m cx cy hr vr i j = Gen.ellipse_m cx cy hr vr j i) := by
+  constructor
+  · simp only [ellipseGenForm, ellipseForm, Gen.ellipse_m, sumRange]; ring
+  · intro i j hi hj
+    interval_cases i <;> interval_cases j <;> simp [Gen.ellipse_m]
+
+/-- **Ellipse(center, hr, vr)** as built by the code contains exactly the points of the Cartesian ellipse -/
+theorem T13_ellipse_code_locus (cx cy hr vr x y : F) (hh : hr ≠ 0) (hv : vr ≠ 0) :
+    ellipseGenForm cx cy hr vr x y = 0 ↔ ((x - cx) / hr) ^ 2 + ((y - cy) / vr) ^ 2 = 1 := by
+  rw [(T13_ellipse_code_form cx cy hr vr x y).1]
+  exact T13_ellipse_locus cx cy hr vr x y hh hv
+
+/-- quadratic form of the regenerated sphere matrix at the finite point (x, y, z, 1) -/
+def sphereGenForm (c0 c1 c2 r x y z : F) : F :=
+  let p : Nat → F := fun k => match k with | 0 => x | 1 => y | 2 => z | _ => 1
+  sumRange 4 fun i => sumRange 4 fun j => p i * Gen.sphere_m c0 c1 c2 r i j * p j
+
+/-- **Sphere(center, r)** as built by the code: `|x − c|² = r²`; symmetric matrix; `center` and `radius` read back from the
+    entries the properties use (`-m[:-1,-1]`, `m[0,0]`, `m[-1,-1]`) -/
+theorem T13_sphere_code_locus (c0 c1 c2 r x y z : F) :
+    (sphereGenForm c0 c1 c2 r x y z = 0 ↔ (x - c0) ^ 2 + (y - c1) ^ 2 + (z - c2) ^ 2 = r ^ 2) ∧
+    (∀ i j, i < 4 → j < 4 → Gen.sphere_m c0 c1 c2 r i j = Gen.sphere_m c0 c1 c2 r j i) ∧
+    (-Gen.sphere_m c0 c1 c2 r 0 3 / Gen.sphere_m c0 c1 c2 r 0 0 = c0 ∧
+     -Gen.sphere_m c0 c1 c2 r 1 3 / Gen.sphere_m c0 c1 c2 r 0 0 = c1 ∧
+     -Gen.sphere_m c0 c1 c2 r 2 3 / Gen.sphere_m c0 c1 c2 r 0 0 = c2) ∧
+    ((Gen.sphere_m c0 c1 c2 r 0 3) ^ 2 + (Gen.sphere_m c0 c1 c2 r 1 3) ^ 2 + (Gen.sphere_m c0 c1 c2 r 2 3) ^ 2
+      - Gen.sphere_m c0 c1 c2 r 3 3 = r ^ 2) := by
+  refine ⟨?_, ?_, ?_, ?_⟩
+  · simp only [sphereGenForm, Gen.sphere_m, sumRange]
+    constructor <;> intro h <;> linear_combination h
+  · intro i j hi hj
+    interval_cases i <;> interval_cases j <;> simp [Gen.sphere_m]
+  · simp [Gen.sphere_m]
+  · simp only [Gen.sphere_m]; ring
+
+end
+
 end Geo
